@@ -9,7 +9,7 @@
    ([enc_ok], [lower_ok], [idna_ok], [ipv6_ok], [unquote_ok] - Proofs/UrlEncProofs.v,
    Proofs/UrlC10.v), each of which ./check C10 samples against the real library. *)
 From Coq Require Import List NArith ZArith Bool.
-From Wpull Require Import Model.UrlLib Model.Url Proofs.UrlPeProofs Proofs.UrlPathProofs Proofs.UrlEncProofs
+From Wpull Require Import Model.UrlLib Model.Url Proofs.UrlPeProofs Proofs.UrlEscCaseProofs Proofs.UrlPathProofs Proofs.UrlEncProofs
   Proofs.UrlNormProofs Proofs.UrlC10 Proofs.UrlEquivProofs Proofs.UrlEquiv2Proofs.
 Import ListNotations.
 Open Scope N_scope.
@@ -140,6 +140,35 @@ Theorem C10_equiv_dot_segments_partial :
      flatten_path true (47 :: a ++ 47 :: x ++ [47; 46; 46; 47] ++ b) = flatten_path true (47 :: a ++ 47 :: b)).
 Proof. exact (fun a b x => conj (flatten_path_insert_dot a b) (conj (flatten_path_insert_slash a b) (flatten_path_insert_updown a b x))). Qed.
 Print Assumptions C10_equiv_dot_segments_partial.
+
+(* the letter case of the two hex digits of an escape: byte strings that differ only there (hexcase:
+   the escapes as uppercase_percent_encoding's left-to-right scan delimits them) get the same
+   percent-encoded and upper-cased form, for the encode sets of path, query (with its '+' for
+   space) and fragment - user name and password sets contain '%', there an escape is encoded again
+   and the clause does not apply *)
+Theorem C10_equiv_escape_case_partial :
+  forall (s s' : str), Forall (fun b => b < 256) s -> hexcase s s' ->
+    upper_pe (pe_bytes default_encode_set s) = upper_pe (pe_bytes default_encode_set s') /\
+    upper_pe (pe_bytes query_encode_set s) = upper_pe (pe_bytes query_encode_set s') /\
+    upper_pe (replace1 32 43 (pe_bytes query_encode_set s)) = upper_pe (replace1 32 43 (pe_bytes query_encode_set s')) /\
+    upper_pe (pe_bytes fragment_encode_set s) = upper_pe (pe_bytes fragment_encode_set s').
+Proof. exact escape_case_all. Qed.
+Print Assumptions C10_equiv_escape_case_partial.
+
+(* non-vacuity: "/a%2f%aF b%zz%4" and "/a%2F%Af b%zz%4" are related and normalize to "/a%2F%AF%20b%zz%4" *)
+Example C10_escape_case_nonvacuous :
+  let s  := [47; 97; 37; 50; 102; 37; 97; 70; 32; 98; 37; 122; 122; 37; 52] in
+  let s' := [47; 97; 37; 50; 70; 37; 65; 102; 32; 98; 37; 122; 122; 37; 52] in
+  hexcase s s' /\ s <> s' /\
+  upper_pe (pe_bytes default_encode_set s) = [47; 97; 37; 50; 70; 37; 65; 70; 37; 50; 48; 98; 37; 122; 122; 37; 52].
+Proof.
+  cbv zeta. split; [|split; [discriminate|vm_compute; reflexivity]].
+  apply hc_chr; [discriminate|]. apply hc_chr; [discriminate|].
+  apply hc_esc; try reflexivity. apply hc_esc; try reflexivity.
+  apply hc_chr; [discriminate|]. apply hc_chr; [discriminate|].
+  apply hc_pct; try reflexivity. apply hc_chr; [discriminate|]. apply hc_chr; [discriminate|].
+  apply hc_pct; try reflexivity. apply hc_chr; [discriminate|]. constructor.
+Qed.
 
 (* ---------- component laws ---------- *)
 (* flatten_path (with slash flattening, as normalize_path calls it) is idempotent ... *)
